@@ -32,9 +32,23 @@ func Run(c *hx.Ctx) {
 	spf := int(base[22]) | int(base[23])<<8
 	fat1 := reserved * 512
 	fat2 := fat1 + spf*512
+	// the largest valid cluster number of this layout (for the boundary families below)
+	maxc := 0
+	func() {
+		defer func() { _ = recover() }()
+		dev := memdev.New(size)
+		dev.KeepData = false
+		dev.RawWrite(base, 0)
+		if f, err := fat12.Read(dev, size, 0, 512); err == nil {
+			maxc = int(f.VerifMaxCluster())
+		}
+	}()
 	n := c.N(1500, 60000)
 	for i := 0; i < n; i++ {
 		id := fmt.Sprintf("w%d", i)
+		// entries outside the small active region (boundary families)
+		extra := map[int]int{}
+		family := ""
 		// a small active region of the table; everything else free (0)
 		m := 6 + r.Intn(40)
 		next := make([]int, m+2)
@@ -84,6 +98,49 @@ func Run(c *hx.Ctx) {
 		if r.Chance(5) {
 			first = r.Intn(4000)
 		}
+		// regime families (regimes/C18.md): the random tables above live in clusters 2..47 and link either
+		// inside that region or far beyond the table; the bounds of the walk are at maxCluster
+		// top: the last entry the table physically holds (the library's MaxCluster may lie one beyond it)
+		top := spf*512*2/3 - 1
+		if maxc < top {
+			top = maxc
+		}
+		switch {
+		case maxc < 100:
+		case i%20 == 7:
+			// a link to the last entries of the table and to the first numbers past it; the last entries end
+			// a chain, so a walk whose bound is off by one returns a chain where it must refuse (or refuses
+			// the last valid cluster)
+			family = "boundary-link"
+			b := hx.Pick(r, []int{top - 1, top, top + 1, top + 2, maxc, maxc + 1})
+			for cl := 2; cl < m+2; cl++ {
+				next[cl] = 0
+			}
+			next[2], next[3] = 3, b
+			first = 2
+			extra[top-1], extra[top] = 0xFFF, 0xFFF
+		case i%20 == 13:
+			// the walk starts at the last entries, just past them, at the reserved numbers
+			family = "boundary-first"
+			first = hx.Pick(r, []int{0, 1, top - 1, top, top + 1, maxc, maxc + 1, maxc + 2, 0xFF7, 0xFF8})
+			extra[top-1], extra[top] = 0xFFF, 0xFFF
+		case i%100 == 19:
+			// one chain through every entry of the table (the longest chain that is not a loop), and the
+			// same chain closed into a loop of full length
+			family = "full-chain"
+			for cl := 2; cl < m+2; cl++ {
+				next[cl] = cl + 1
+			}
+			for cl := m + 2; cl < top; cl++ {
+				extra[cl] = cl + 1
+			}
+			extra[top] = 0xFFF
+			if i%200 == 119 {
+				family = "full-loop"
+				extra[top] = 2
+			}
+			first = 2
+		}
 		if !c.Want(id) {
 			continue
 		}
@@ -92,6 +149,11 @@ func Run(c *hx.Ctx) {
 		copy(tbl, img[fat1:fat1+spf*512])
 		for cl := 2; cl < m+2; cl++ {
 			put12(tbl, cl, next[cl])
+		}
+		for cl, v := range extra {
+			if cl >= m+2 && cl*3/2+1 < len(tbl) {
+				put12(tbl, cl, v)
+			}
 		}
 		copy(img[fat1:], tbl)
 		copy(img[fat2:], tbl)
@@ -132,6 +194,13 @@ func Run(c *hx.Ctx) {
 			return
 		}
 		desc := fmt.Sprintf("first=%d next[2..]=%v", first, next[2:])
+		if family != "" {
+			c.Stat("family=" + family)
+			desc = fmt.Sprintf("%s max=%d %s", family, maxc, desc)
+			if family == "boundary-link" || family == "boundary-first" {
+				desc += fmt.Sprintf(" (entries %d and %d, the last of the table, end a chain)", top-1, top)
+			}
+		}
 		if got.pan != nil {
 			c.Impl(id, "panic")
 			c.Fail(id, "-", fmt.Sprintf("panic: %v", got.pan), desc)
@@ -149,6 +218,9 @@ func Run(c *hx.Ctx) {
 		}
 		c.Case(id, "robust.walk", fmt.Sprintf("max=%d", maxc), fmt.Sprintf("first=%d", first), "eoc=4088", "table="+strings.Join(full, ","))
 		if got.err != nil {
+			if os.Getenv("VERIF_C18_DEBUG") != "" && family != "" {
+				fmt.Fprintf(os.Stderr, "%s %s first=%d: %v\n", id, family, first, got.err)
+			}
 			c.Impl(id, "err")
 			c.Stat("walk=err")
 		} else {
